@@ -372,7 +372,14 @@ def gen_doc(rng: random.Random, mp: dict, hostile: bool, noise: float = 1.0,
                 n_el = rng.choice([1, 1, 2, 3])
                 if big and level == len(spine) - 1:
                     n_el = rng.randint(150, 400)     # a serialised line far beyond 64 KiB
-                _set(obj, spine[level], [fill(level + 1) for _ in range(n_el)])
+                els = [fill(level + 1) for _ in range(n_el)]
+                if not big and rng.random() < 0.12:
+                    # an element an exporter wrote twice in a row: two neighbouring elements
+                    # whose mapped values are all equal are still two records
+                    import copy
+                    k = rng.randrange(len(els))
+                    els.insert(k + 1, copy.deepcopy(els[k]))
+                _set(obj, spine[level], els)
         return obj
     return fill(0)
 
